@@ -206,6 +206,8 @@ twin('C05', 'pyiga/hierarchical.py', 'pyiga.hierarchical.HSplineFunc.grid_jacobi
 
 brk('C18', 'R18.9', 'pyiga/tensor.py', 'pyiga.tensor.CanonicalOperator.__init__', r"self\.terms = \[tuple\(t\) for t in terms\]", 'self.terms = list(terms)', 'terms stored as passed: eye() hands in lists')
 twin('C18', 'pyiga/tensor.py', 'pyiga.tensor.CanonicalOperator.__init__', r"self\.terms = \[tuple\(t\) for t in terms\]", 'self.terms = list(tuple(term) for term in terms)', 'normalisation spelled with a generator')
+brk('C03', 'R03.12', 'pyiga/_hdiscr.py', 'pyiga._hdiscr.HDiscretization.assemble_matrix', r"for lv in range\(k\):", 'for lv in range(max(0, k - hs.disparity), k):', 'inter-level search bounded by the disparity again')
+twin('C03', 'pyiga/_hdiscr.py', 'pyiga._hdiscr.HDiscretization.assemble_matrix', r"for lv in range\(k\):", 'for lv in range(0, k):', 'explicit start of the level range')
 # ---- rules added after the first wave of independently seeded changes (seeded/S01..S08): variants of those changes, and
 #      behaviour-preserving rewrites of the same constructs
 brk('C03', 'R03.7', 'pyiga/_hdiscr.py', 'pyiga._hdiscr.HDiscretization.assemble_matrix', r"(\n(\s*)for lv in range\(max\(0, k - hs\.disparity\), k\):)", r"\1\n\2    if not neighbors[k][lv]:\n\2        continue", 'coarser level skipped inside the accumulation loop')
